@@ -186,13 +186,13 @@ pub fn write_plain<N: Nd>(nd: &mut N) {
 
     let mut w = Sink::<OUT>::new();
     ok(fasta::write_to(&mut w, head, seq));
-    assert!(same(&w, &e), "C10 write_to layout");
-    assert!(parses_back(&w.buf, w.len, head, seq), "C10 write_to round trip");
+    vassert!(same(&w, &e), "C10 write_to layout");
+    vassert!(parses_back(&w.buf, w.len, head, seq), "C10 write_to round trip");
 
     let mut w2 = Sink::<OUT>::new();
     ok(fasta::write_head(&mut w2, head));
     ok(fasta::write_seq(&mut w2, seq));
-    assert!(same(&w2, &e), "C10 write_head + write_seq layout");
+    vassert!(same(&w2, &e), "C10 write_head + write_seq layout");
     cover!(sl == 0, "empty sequence");
     cover!(hl == 0, "empty header");
     cover!(sl == MAXSEQ && hl == MAXHEAD, "maximal sizes");
@@ -215,14 +215,14 @@ pub fn write_owned<N: Nd>(nd: &mut N) {
     e.push(LF);
     let mut w = Sink::<OUT>::new();
     ok(rec.write(&mut w));
-    assert!(same(&w, &e), "C10 OwnedRecord::write layout");
+    vassert!(same(&w, &e), "C10 OwnedRecord::write layout");
     if sl > 0 {
         exp_wrapped(&mut e2, &s, sl, wrap);
     }
     let mut w2 = Sink::<OUT>::new();
     ok(rec.write_wrap(&mut w2, wrap));
-    assert!(same(&w2, &e2), "C10 OwnedRecord::write_wrap layout");
-    assert!(parses_back(&w2.buf, w2.len, head, seq), "C10 OwnedRecord::write_wrap round trip");
+    vassert!(same(&w2, &e2), "C10 OwnedRecord::write_wrap layout");
+    vassert!(parses_back(&w2.buf, w2.len, head, seq), "C10 OwnedRecord::write_wrap round trip");
     std::mem::forget(rec);
     cover!(sl > wrap, "more than one line");
 }
@@ -262,7 +262,7 @@ pub fn write_id_desc<N: Nd>(nd: &mut N) {
 
     let mut w = Sink::<OUT>::new();
     ok(fasta::write_id_desc(&mut w, id, desc));
-    assert!(same(&w, &e), "C10 write_id_desc layout");
+    vassert!(same(&w, &e), "C10 write_id_desc layout");
 
     let mut e1 = Exp::new();
     e1.extend(&e.buf[..e.len]);
@@ -270,9 +270,9 @@ pub fn write_id_desc<N: Nd>(nd: &mut N) {
     e1.push(LF);
     let mut w1 = Sink::<OUT>::new();
     ok(fasta::write_parts(&mut w1, id, desc, seq));
-    assert!(same(&w1, &e1), "C10 write_parts layout");
+    vassert!(same(&w1, &e1), "C10 write_parts layout");
     // round trip: the header that parses back is id [' ' desc]
-    assert!(parses_back(&w1.buf, w1.len, &full[..fl], seq), "C10 write_parts round trip");
+    vassert!(parses_back(&w1.buf, w1.len, &full[..fl], seq), "C10 write_parts round trip");
 
     let mut e2 = Exp::new();
     e2.extend(&e.buf[..e.len]);
@@ -281,8 +281,8 @@ pub fn write_id_desc<N: Nd>(nd: &mut N) {
     }
     let mut w2 = Sink::<OUT>::new();
     ok(fasta::write_wrap(&mut w2, id, desc, seq, wrap));
-    assert!(same(&w2, &e2), "C10 write_wrap layout");
-    assert!(parses_back(&w2.buf, w2.len, &full[..fl], seq), "C10 write_wrap round trip");
+    vassert!(same(&w2, &e2), "C10 write_wrap layout");
+    vassert!(parses_back(&w2.buf, w2.len, &full[..fl], seq), "C10 write_wrap round trip");
     cover!(has_desc && cut == hl, "empty description present");
     cover!(has_desc && cut == 0, "empty id with description");
     cover!(!has_desc, "no description");
@@ -299,9 +299,9 @@ pub fn write_wrapped<N: Nd>(nd: &mut N) {
     }
     let mut w = Sink::<OUT>::new();
     ok(fasta::write_wrap_seq(&mut w, seq, wrap));
-    assert!(same(&w, &e), "C10 write_wrap_seq layout");
+    vassert!(same(&w, &e), "C10 write_wrap_seq layout");
     if sl > 0 {
-        assert!(wrap_shape_ok(&w.buf, 0, w.len, wrap), "C10 write_wrap_seq line widths");
+        vassert!(wrap_shape_ok(&w.buf, 0, w.len, wrap), "C10 write_wrap_seq line widths");
     }
     cover!(sl > 0 && sl == 2 * wrap, "length multiple of wrap");
     cover!(sl > wrap && sl < 2 * wrap, "ragged last line");
@@ -327,9 +327,9 @@ pub fn write_wrapped_iter<N: Nd>(nd: &mut N) {
     }
     let mut w = Sink::<OUT>::new();
     ok(fasta::write_wrap_seq_iter(&mut w, chunks, wrap));
-    assert!(same(&w, &e), "C10 write_wrap_seq_iter chunked == whole layout");
+    vassert!(same(&w, &e), "C10 write_wrap_seq_iter chunked == whole layout");
     if sl > 0 {
-        assert!(wrap_shape_ok(&w.buf, 0, w.len, wrap), "C10 write_wrap_seq_iter line widths");
+        vassert!(wrap_shape_ok(&w.buf, 0, w.len, wrap), "C10 write_wrap_seq_iter line widths");
     }
     // unwrapped iterator variant: concatenation + one terminator
     let mut e2 = Exp::new();
@@ -337,7 +337,7 @@ pub fn write_wrapped_iter<N: Nd>(nd: &mut N) {
     e2.push(LF);
     let mut w2 = Sink::<OUT>::new();
     ok(fasta::write_seq_iter(&mut w2, chunks.into_iter()));
-    assert!(same(&w2, &e2), "C10 write_seq_iter layout");
+    vassert!(same(&w2, &e2), "C10 write_seq_iter layout");
     cover!(c1 == c2 && c2 < sl, "empty middle chunk");
     cover!(c2 == sl && sl > 0 && sl == 2 * wrap, "empty last chunk after a full line");
     cover!(c1 > 0 && c1 == wrap && c1 < sl, "chunk ends exactly at a line end");
@@ -345,19 +345,14 @@ pub fn write_wrapped_iter<N: Nd>(nd: &mut N) {
 }
 
 harnesses! {
-    /// @meta props=C10 tier=quick kind=R timeout=600 mem=10 bounds="header <= 2 bytes, sequence <= 5 bytes, all byte values allowed by the quantifier"
-    #[kani::unwind(18)]
+    /// @meta props=C10 tier=quick kind=R timeout=600 mem=10 bounds="header <= 2 bytes, sequence <= 5 bytes, all byte values allowed by the quantifier" unwind=18
     c10_write_plain => write_plain;
-    /// @meta props=C10 tier=quick kind=R timeout=600 mem=10 bounds="OwnedRecord write / write_wrap: header <= 2, sequence <= 5, wrap 1..=6"
-    #[kani::unwind(18)]
+    /// @meta props=C10 tier=quick kind=R timeout=600 mem=10 bounds="OwnedRecord write / write_wrap: header <= 2, sequence <= 5, wrap 1..=6" unwind=18
     c10_write_owned => write_owned;
-    /// @meta props=C10 tier=quick kind=R timeout=900 mem=10 bounds="id+description <= 2 bytes split at every point, description present/absent, sequence <= 5, wrap 1..=6"
-    #[kani::unwind(18)]
+    /// @meta props=C10 tier=quick kind=R timeout=900 mem=10 bounds="id+description <= 2 bytes split at every point, description present/absent, sequence <= 5, wrap 1..=6" unwind=18
     c10_write_id_desc => write_id_desc;
-    /// @meta props=C10 tier=quick kind=R timeout=600 mem=10 bounds="sequence <= 5 bytes, wrap 1..=6"
-    #[kani::unwind(18)]
+    /// @meta props=C10 tier=quick kind=R timeout=600 mem=10 bounds="sequence <= 5 bytes, wrap 1..=6" unwind=18
     c10_write_wrapped => write_wrapped;
-    /// @meta props=C10 tier=quick kind=R timeout=900 mem=10 bounds="sequence <= 5 bytes in 3 chunks at every pair of cut points (empty chunks included), wrap 1..=6"
-    #[kani::unwind(18)]
+    /// @meta props=C10 tier=quick kind=R timeout=900 mem=10 bounds="sequence <= 5 bytes in 3 chunks at every pair of cut points (empty chunks included), wrap 1..=6" unwind=18
     c10_write_wrapped_iter => write_wrapped_iter;
 }
